@@ -960,6 +960,17 @@ class PTA:
             out |= self.attr_of(o, e.attr, fld, e, callpos)
         return out
 
+    def _nt_field_index(self, attr: str) -> Optional[int]:
+        tab = getattr(self, '_nt_fields', None)
+        if tab is None:
+            tab = {}
+            for c in self.ix.classes.values():
+                for i, n in enumerate(c.namedtuple_fields or ()):
+                    tab.setdefault(n, set()).add(i)
+            self._nt_fields = tab
+        idx = tab.get(attr)
+        return next(iter(idx)) if idx and len(idx) == 1 else None
+
     def _class_attr_objs(self, c: ClassInfo, fld: str) -> Set[Obj]:
         out: Set[Obj] = set()
         for cc in c.mro():
@@ -1022,7 +1033,15 @@ class PTA:
             if not hit or attr in LIST_MUTATORS or attr in PURE_METHODS:
                 out.add(self.extmeth_obj(o, attr))
             return out
+        if o.kind == 'tuple' and o.extra and o.extra[0] == 'nt' and attr in o.extra[1]:
+            return set(self.get(('F', o, ('idx', o.extra[1].index(attr)))))
         if o.kind in CONTAINER_KINDS or o.kind in ARRAYISH_KINDS:
+            nti = self._nt_field_index(attr)
+            if nti is not None and not callpos and o.kind in ('tuple', 'ext', 'field', 'param'):
+                # a tuple produced elsewhere (popped from a queue) read through a NamedTuple field name
+                got = self.elems(o, nti, False)
+                if got:
+                    return set(got)
             if callpos:
                 return {self.extmeth_obj(o, attr)} | set(self.get(('F', o, fld)))
             if attr in ALIAS_ATTRS:
@@ -1093,6 +1112,18 @@ class PTA:
             self._record_call(key, fn)
             self.bind_call_objs(fn, recv, pos, kwargs, node, star)
             return set(self.get(('R', self._fq(fn))))
+        if c.kind == 'cls' and c.cls.namedtuple_fields is not None:
+            # a NamedTuple is a tuple whose components also have names
+            flds = c.cls.namedtuple_fields
+            t = self.alloc('tuple', node, tag='nt', extra=('nt', tuple(flds)))
+            for i, v in enumerate(pos):
+                if v and i < len(flds):
+                    self.add(('F', t, ('idx', i)), v)
+            for k, v in kwargs.items():
+                if k in flds and v:
+                    self.add(('F', t, ('idx', flds.index(k))), v)
+            self.calls.setdefault(key, set()).add(('new', c.cls.qualname))
+            return {t}
         if c.kind == 'cls':
             cls = c.cls
             inst = self.alloc('inst', node, cls=cls)
